@@ -11,6 +11,7 @@ import (
 	"encoding/hex"
 	"fmt"
 	"io"
+	"log"
 	"net"
 	"net/http"
 	"net/http/httptest"
@@ -24,7 +25,6 @@ import (
 
 	"lunar/engine/actions"
 	"lunar/engine/routing"
-	"lunar/toolkit-core/logging"
 	"lunar/toolkit-core/verifhook"
 
 	"github.com/negasus/haproxy-spoe-go/message"
@@ -242,12 +242,16 @@ func getWorld() *world {
 	serve(os.Getenv("HAPROXY_MANAGE_ENDPOINTS_PORT"), w.ha.admin)
 	serve(os.Getenv("LUNAR_HEALTHCHECK_PORT"), w.ha.health)
 	w.rd = routing.NewHandlingDataManager(5*time.Second, nil)
-	if err := w.rd.Setup(&logging.LunarTelemetryWriter{}); err != nil {
+	// nil telemetry writer: with an empty LunarTelemetryWriter the periodic Doctor report (every 2 min)
+	// dereferences a nil logger and kills the process
+	if err := w.rd.Setup(nil); err != nil {
 		panic("c08: engine set-up failed: " + err.Error())
 	}
 	mux := http.NewServeMux()
 	w.rd.SetHandleRoutes(mux)
-	w.srv = httptest.NewServer(mux)
+	w.srv = httptest.NewUnstartedServer(mux)
+	w.srv.Config.ErrorLog = log.New(io.Discard, "", 0) // "superfluous WriteHeader" of the double handleError
+	w.srv.Start()
 	w.handler = routing.Handler(w.rd)
 	theWorld = w
 	return w
